@@ -226,6 +226,41 @@ func runC29(c *eng.Ctx) {
 	if nUp == 0 {
 		c.Undecided("GUARD-uploads-area", "genUploadsFolder", token.NoPos, "no use of the upload area found")
 	}
+	// the handlers' common wrapper refuses paths with a ".." element before the handler runs, and every route is
+	// registered through it: that is what makes a router that keeps paths as sent (SkipClean) safe
+	wrapperRefuses := false
+	if tr := c.NeedFunc("weed/s3api", "track"); tr != nil && len(tr.AnonFuncs) == 1 {
+		w := tr.AnonFuncs[0]
+		c.Touch(w)
+		inner := eng.Find(w, func(in ssa.Instruction) bool {
+			call, ok := in.(*ssa.Call)
+			return ok && eng.ParamName(call.Call.Value) == "f"
+		})
+		refuse := eng.FailEdges(w, func(cond ssa.Value) (bool, bool) {
+			call, ok := cond.(*ssa.Call)
+			if !ok || !(strings.Contains(strings.ToLower(eng.Callee(call)), "dotdot") || (eng.CalleeIs(call, "strings.Contains") && func() bool { sv, isS := eng.ConstString(call.Call.Args[1]); return isS && sv == ".." }())) {
+				return false, false
+			}
+			return eng.MentionsField(call.Call.Args[0], "URL.Path"), true
+		})
+		if len(inner) == 1 && len(refuse) > 0 {
+			if hit, _ := eng.Search(eng.Entry(w), eng.Is(inner[0]), eng.SearchOpt{Cut: refuse}); hit == nil {
+				wrapperRefuses = true
+			}
+		}
+		allWrapped := true
+		nRoutes := 0
+		if reg := c.P.Func("weed/s3api", "(*S3ApiServer).registerRouter"); reg != nil {
+			for _, r := range s3Routes(c.P, reg) {
+				nRoutes++
+				if !r.tracked {
+					allWrapped = false
+				}
+			}
+		}
+		c.Ob("SIB-escape", "wrapper-refuses-dotdot", wrapperRefuses && allWrapped && nRoutes > 0, w.Pos(), fmt.Sprintf("the common wrapper of the %d S3 routes refuses a request path with a '..' element before the handler runs", nRoutes))
+		wrapperRefuses = wrapperRefuses && allWrapped && nRoutes > 0
+	}
 	nSkip := 0
 	nS3 := 0
 	for _, fn := range P.AllSrcFuncs() {
@@ -238,7 +273,7 @@ func runC29(c *eng.Ctx) {
 		for _, in := range eng.Find(fn, eng.CallTo("mux.Router).SkipClean")) {
 			if t, isT := eng.ConstBool(eng.Arg(in.(ssa.CallInstruction), 0)); !isT || t {
 				nSkip++
-				c.Ob("SIB-escape", fmt.Sprintf("%s SkipClean#%d", eng.FuncName(fn), nSkip), false, in.Pos(), "the router's path cleaning is what removes '..' and empty segments from object keys; it must stay enabled")
+				c.Ob("SIB-escape", fmt.Sprintf("%s SkipClean#%d", eng.FuncName(fn), nSkip), wrapperRefuses, in.Pos(), "a router that keeps request paths as sent is acceptable only because the handlers' common wrapper refuses '..' elements (otherwise the router's path cleaning is what removes them)")
 			}
 		}
 	}
@@ -247,7 +282,7 @@ func runC29(c *eng.Ctx) {
 	} else if nSkip == 0 {
 		c.Ob("SIB-escape", "router-cleans-paths", true, token.NoPos, "no router handed to the S3 API server disables path cleaning")
 	}
-	c.Expect("SIB-escape", 5)
+	c.Expect("SIB-escape", 6)
 
 	// ---------------------------------------------------------------- (3) GUARD-uploads-area
 	if fn := c.NeedFunc("weed/s3api", "(*S3ApiServer).doListFilerEntries"); fn != nil {
